@@ -13,7 +13,7 @@ const OPS: &[&str] = &[
     "ui:u", "ui:longer-user:pw", "ui:", "ui-", "host:h", "host:longer.example.org", "host:", "host:[::1]", "host:\u{e9}.org", "host:%C3%A9", "port:80",
     "port:", "port:12345", "port-",
 ];
-const UIS: &[Option<&str>] = &[None, Some(""), Some("u"), Some("u:p")];
+const UIS: &[Option<&str>] = &[None, Some(""), Some("u"), Some("u:p"), Some("user:1234567"), Some(":99999"), Some("u:80"), Some("u:"), Some("1:2:3")];
 const HOSTS: &[&str] = &["", "h", "example.org", "1.2.3.4", "[::1]", "[v1.a:b]", "\u{e9}", "%41"];
 const PORTS: &[Option<&str>] = &[None, Some(""), Some("80")];
 const TAILS: &[&str] = &["", "/path", "?q", "#f", "/a/b?q#f", "/~u@home:1", "?to=a@b:c#x@y"];
